@@ -20,6 +20,7 @@ TRACKED_ROUTES = [
     "iadd", "isub", "imul", "itruediv", "ifloordiv", "imod", "ipow",
     "ilshift", "irshift", "iand", "ior", "ixor", "imatmul",
     "fill", "put", "sort", "partition", "byteswap_inplace", "np_put", "shuffle", "idiom_slice_iadd", "idiom_col_imul", "imul_neg", "setitem_partial_fail",
+    "setitem_empty_tuple", "setitem_tuple_of_arrays", "setitem_newaxis", "setitem_bool_scalar", "setitem_mask_row",
 ]
 # routes numpy offers that bypass every overridden method (recorded findings on the unchanged tree)
 UNTRACKED_ROUTES = [
@@ -136,6 +137,25 @@ def _write(route, x, mir, p):
         x[[i % n for i in p.get("rows", [0])]] = v
     elif route == "setitem_ellipsis":
         x[...] = v
+    elif route == "setitem_empty_tuple":
+        # the empty tuple is a complete index: every element
+        x[()] = v
+    elif route == "setitem_tuple_of_arrays":
+        rows = [i % n for i in p.get("rows", [0])]
+        if x.ndim >= 2:
+            x[(np.array(rows), np.zeros(len(rows), dtype=np.int64))] = v
+        else:
+            x[(np.array(rows),)] = v
+    elif route == "setitem_newaxis":
+        x[None, ...] = v
+    elif route == "setitem_bool_scalar":
+        # a 0-d boolean index selects everything
+        x[True] = v
+    elif route == "setitem_mask_row":
+        # a one-dimensional mask over the first axis
+        m = np.zeros(n, dtype=bool)
+        m[p.get("k", 1) % n] = True
+        x[m] = v
     elif route == "setitem_partial_fail":
         # an assignment numpy converts element by element and that fails at the LAST element: everything before it is already stored
         vals = np.empty(x.shape, dtype=object)
